@@ -36,7 +36,7 @@ def s_converge(F, res):
     for kind, line, detail in exits:
         n += 1
         key = "%s|loop exit (%s)" % ("tx3_resolver::resolve_tx", kind)
-        if kind == "unconverged":
+        if kind.startswith("unconverged"):
             res.add([finding("S-CONVERGE", key, where(f, line), "resolve_tx %s: the returned transaction's body carries the previous round's fee while the reported fee is the new one" % detail)])
         else:
             res.add([ok("S-CONVERGE", key, where(f, line), detail)])
